@@ -119,8 +119,8 @@ func main() {
 			"non-trivial = the unit's outcome was observed on the cluster's request log; distinct = (mode, unit class, key-class tuple, outcome)")
 	run.Watchdog(28 * time.Minute)
 	run.MinDistinct(12)
-	n := run.N(45, 1300)
-	nProbe := run.N(12, 500)
+	n := run.N(110, 1100)
+	nProbe := run.N(40, 450)
 	run.Set("double_commands_registered_from_ref_table", len(added))
 	run.Assume("cluster double (fakeredis): one cluster-wide lock serialises all nodes; slots by ref.HashSlot; MOVED / CROSSSLOT decided as Redis 7 getNodeByQuery does at queue time and again at EXEC over all queued keys; a MULTI block is executed only by the owner of its single slot")
 	run.Assume("the double routes — and answers COMMAND GETKEYS for — every command of the reference key table by the reference key positions (fakeredis.RegisterRefCommands); business writes are logged and answered +OK, not executed (no type clashes); the reserved bookkeeping namespace is executed for real")
